@@ -195,3 +195,15 @@ Proof.
   - apply C13_box in H; auto. unfold box_set in H. rewrite image_rotation_iff in H by auto.
     destruct H as [H _]. revert H. unfold T345y. vunfold. cbn [vx vy vz]. rewrite ContainProofs.Rabs_le_iff. lra.
 Qed.
+
+(** ** per-input verdicts: a point certified by [outside_cert] (a separating direction, evaluated
+       by vm_compute on exact rationals) is at distance >= g from every point of the shape, so
+       the predicate has to answer False for it *)
+From Coq Require Import Qreals.
+From D3 Require Checker.Shapes Checker.ShapesCert.
+Local Open Scope R_scope.
+Theorem C13_outside_cert_sound S p n g :
+  ShapesCert.outside_cert S p n g = true ->
+  forall x, Checker.Shapes.sem S x -> Q2R g <= norm (vsub x (Checker.Shapes.v2r p)).
+Proof. exact (ShapesCert.outside_cert_sound S p n g). Qed.
+Print Assumptions C13_outside_cert_sound.
